@@ -17,7 +17,7 @@ from dataclasses import dataclass  # noqa: E402
 from hio.help import RegDom, IceRegDom  # noqa: E402
 from hio.help.doming import registerify  # noqa: E402
 
-SHM = "/dev/shm"
+SHM = "/dev/shm" if os.path.isdir("/dev/shm") and os.access("/dev/shm", os.W_OK) else "/var/tmp"   # scratch root, removed after use
 _seq = itertools.count()
 
 
